@@ -188,7 +188,7 @@ def _validate(case, p, rank, df, where) -> CaseInfo:
 
 @st.composite
 def c16_case(draw):
-    o = Opts(python_frames=True, steps=[0, 1, 2, 3], w_sync=0, p_zero_op=0, allow_zero_call=False, second_thread=True, autograd=False, device_sync=False,
+    o = Opts(fractional_stamps=True, python_frames=True, steps=[0, 1, 2, 3], w_sync=0, p_zero_op=0, allow_zero_call=False, second_thread=True, autograd=False, device_sync=False,
              annotations=True, w_launch=6, max_top=3, max_depth=2, streams=2, body_fn=template_body, kernel_names=KNAMES)
     case = draw(sim_case(o, max_ranks=2, extras_trace_span=True, nranks_choices=[2, 1]))
     rank = draw(st.sampled_from([r["rank"] for r in case["ranks"]]))
